@@ -33,9 +33,64 @@ def _obs(sqlparse, entry, arg, enc, opts):
         return ['exception', type(e).__name__, oracles.crash_site(e)]
 
 
+class StingyStream(io.TextIOBase):
+    """a text stream whose environment answers are as unhelpful as the io contract allows: read(n) hands out at most
+    `k` characters per call, readline()/iteration one line, readlines(hint) stops at the first line that reaches
+    min(hint, k); read() without a size returns the rest"""
+
+    def __init__(self, text, k):
+        self.text, self.pos, self.k = text, 0, k
+
+    def readable(self):
+        return True
+
+    def read(self, size=-1):
+        if size is None or size < 0:
+            out, self.pos = self.text[self.pos:], len(self.text)
+            return out
+        out = self.text[self.pos:self.pos + min(size, self.k)]
+        self.pos += len(out)
+        return out
+
+    def readline(self, size=-1):
+        if self.pos >= len(self.text):
+            return ''
+        m = LINE_END.search(self.text, self.pos)
+        end = m.end() if m else len(self.text)
+        if size is not None and size >= 0:
+            end = min(end, self.pos + size)
+        out, self.pos = self.text[self.pos:end], end
+        return out
+
+    def readlines(self, hint=-1):
+        out, tot = [], 0
+        while True:
+            ln = self.readline()
+            if not ln:
+                return out
+            out.append(ln)
+            tot += len(ln)
+            if hint is not None and hint > 0 and tot >= min(hint, self.k):
+                return out
+
+    def __iter__(self):
+        return self
+
+    def __next__(self):
+        ln = self.readline()
+        if not ln:
+            raise StopIteration
+        return ln
+
+
+LINE_END = __import__('re').compile('\n')       # newline='' semantics: only LF ends a line, nothing is translated
+
+
 def forms_for(text):
     """[(form name, argument factory, encoding argument, reference text)]"""
-    out = [('StringIO', lambda: io.StringIO(text), None, text)]
+    out = [('StringIO', lambda: io.StringIO(text), None, text),
+           ('short-read-stream(1)', lambda: StingyStream(text, 1), None, text),
+           ('short-read-stream(3)', lambda: StingyStream(text, 3), None, text)]
     for enc in ENCODINGS:
         try:
             data = text.encode(enc)
@@ -190,6 +245,40 @@ def check_cli(sqlparse, scratch, acc, bf, vf, text, enc, cin, cout):
                        'detail': f'cli {obs!r:.200} vs format {want!r:.200}', 'size': len(argv_opts) * 100 + len(text)})
 
 
+# ------------------------------------------------------------------ long inputs around buffer boundaries
+
+BUFFER_SIZES = [4096, 8192, 65536]
+SPANNING = [("'a", "b'"), ('/* a', 'b */'), ('$$a', 'b$$'), ('order', 'by x'), ('"a', 'b"'), ('end', 'if')]
+
+
+def boundary_texts(tier):
+    """texts in which the line end inside a token that spans two lines sits at every offset of a window around a
+    common buffer size (filler: whole comment lines, cheap to lex), so that any reader working block-wise or
+    line-block-wise has a block edge inside the token"""
+    import io as _io
+    sizes = sorted(set(BUFFER_SIZES + [_io.DEFAULT_BUFFER_SIZE]))
+    if tier == 'quick':
+        sizes = [s for s in sizes if s <= 8192]
+    out = []
+    for size in sizes:
+        for first, second in SPANNING:
+            for delta in range(-3, 4) if tier == 'quick' else range(-8, 9):
+                head = 'select '
+                target = size + delta             # offset of the line end inside the spanning token
+                fill = target - len(head) - len(first)
+                lines = []
+                while fill > 0:
+                    n = min(fill, 1000)
+                    if fill - n == 1:
+                        n -= 1                    # never leave a 1-character rest (a filler line is '--' ... LF)
+                    lines.append('--' + 'x' * (n - 3) + '\n' if n >= 3 else ' ' * n)
+                    fill -= n
+                text = ''.join(lines) + head + first + '\n' + second + ' from t;\nselect 2'
+                assert text.index(first + '\n') + len(first) == target, (size, delta)
+                out.append(text)
+    return out
+
+
 def run(tier, seed):
     n = 2 if tier == 'quick' else 3
     texts = [''.join(t) for k in range(1, n + 1) for t in itertools.product(FRAGS, repeat=k)]
@@ -197,7 +286,8 @@ def run(tier, seed):
         b, _ = explore.run(lambda c, si=si: grammar.build_stmt(c, si), {}, set())
         texts.append(b.text())
         texts.append(b.text().replace('c', 'é').replace(' t', ' таблица') + "; select 'ß€'")
-    texts = core.rotate(texts, seed)
+    long_texts = boundary_texts(tier)
+    texts = core.rotate(texts + long_texts, seed)
 
     def work(chunk):
         import sqlparse
